@@ -82,6 +82,9 @@ def _parse_class(pattern: str):
         tree = sre_parse.parse(pattern)
     except Exception:
         return None
+    import re as _re
+    if tree.state.flags & ~int(_re.UNICODE):
+        return ("flags", None, False, False)        # (?i), (?a), (?x) ... inside the pattern
     items = list(tree)
     anchored = False
     if len(items) >= 2 and str(items[0][0]) == "AT" and str(items[-1][0]) == "AT":
@@ -173,7 +176,10 @@ def r(ck: Check) -> None:
     cp = _parse_class(chk[0].pattern)
     sp = _parse_class(sub[0].pattern)
     full = chk[0].kind == "fullmatch"
-    if cp is None:
+    if (cp is not None and cp[0] == "flags") or (sp is not None and sp[0] == "flags"):
+        probs.append("an inline regex flag changes the meaning of the character classes (with (?i) `[a-z]` also matches "
+                     "non-ASCII letters that case-fold into it, e.g. U+212A KELVIN SIGN)")
+    elif cp is None:
         probs.append(f"the acceptance pattern {chk[0].pattern!r} is not of the form ^[class]+$")
     elif cp[0] == "category":
         probs.append(f"the acceptance pattern {chk[0].pattern!r} uses a category escape (\\\\w, \\\\d ...): in Python these match "
@@ -201,7 +207,11 @@ def r(ck: Check) -> None:
         repl = sub[0].repl
         if not (isinstance(repl, ast.Constant) and isinstance(repl.value, str) and repl.value and all(ord(c) in acc for c in repl.value)):
             probs.append("the replacement text is not itself made of accepted characters")
-        if chk[0].subject is None or sub[0].subject is None or text(chk[0].subject) != text(sub[0].subject):
+        def _subject(u_):
+            # the name under its own spelling: `name` for `name = network.get_variable_name(var)`
+            return text(fm.deref(u_.subject, fm.cfgn(u_.call))) if u_.subject is not None else None
+        if chk[0].subject is None or sub[0].subject is None or (
+                text(chk[0].subject) != text(sub[0].subject) and _subject(chk[0]) != _subject(sub[0])):
             probs.append("the checked and the repaired string differ")
     ck.ob("R", fm, f.node, not probs, "; ".join(probs) if probs else "accepted class within [A-Za-z0-9_]; replaced class is its complement",
           key="regex classes")
@@ -237,13 +247,29 @@ def u(ck: Check) -> None:
     if len(rets) != 1 or text(rets[0].value) != f.params()[0]:
         probs.append("the sanitised copy is not returned")
     lp = [n for n in own_walk(f.node) if isinstance(n, ast.For)]
+    if len(rn) == 1:
+        # the scan that renames
+        enc = [l for l in fm.cfg.enclosing_loops(fm.cfgn(rn[0])) if isinstance(l, ast.For)]
+        if enc:
+            lp = [enc[-1]]
+    scanned = text(lp[0].iter) if lp else ""
+    if lp and isinstance(lp[0].iter, ast.Name):
+        # `bad = [v for v in network.variables() if <not accepted>]` ... `for v in bad`: every variable was looked at
+        sd_ = fm.single_def(lp[0].iter.id, fm.cfg.loop_header[lp[0]])
+        if sd_ is not None and isinstance(sd_[1], ast.ListComp) and len(sd_[1].generators) == 1 \
+                and isinstance(sd_[1].elt, ast.Name) and text(sd_[1].elt) == text(sd_[1].generators[0].target) \
+                and len(sd_[1].generators[0].ifs) == 1 and isinstance(sd_[1].generators[0].ifs[0], ast.UnaryOp) \
+                and isinstance(sd_[1].generators[0].ifs[0].op, ast.Not) and isinstance(sd_[1].generators[0].ifs[0].operand, ast.Call) \
+                and callee_name(sd_[1].generators[0].ifs[0].operand) in ("match", "fullmatch", "search"):
+            scanned = text(sd_[1].generators[0].iter)
+
     def _breaks_outer(x):
         if not isinstance(x, ast.Break):
             return False
         el = fm.cfg.enclosing_loops(fm.cfgn(x))
         return bool(el) and el[0] is lp[0]
 
-    if not lp or "variables()" not in text(lp[0].iter) or any(_breaks_outer(x) for x in ast.walk(lp[0])):
+    if not lp or "variables()" not in scanned or any(_breaks_outer(x) for x in ast.walk(lp[0])):
         probs.append("not every variable is checked")
     ck.ob("U", fm, f.node, not probs, "; ".join(probs) if probs else "copy; rename until accepted; check-only raises", key="renaming")
 
@@ -264,9 +290,9 @@ def p(ck: Check) -> None:
     san = [n for n in own_walk(fm.f.node) if isinstance(n, ast.Call) and callee_name(n) == "sanitize_network_names"]
     ok = bool(san) and any(k.arg == "check_only" and is_true(k.value) for k in san[0].keywords) and text(san[0].args[0]) == fm.f.params()[0]
     if ok:
-        # before any place is created
+        # before any place is created, and for every caller (not only when some optional argument is missing)
         first_add = min((n.lineno for n in own_walk(fm.f.node) if isinstance(n, ast.Call) and callee_name(n) == "add_node"), default=10 ** 9)
-        ok = san[0].lineno < first_add
+        ok = san[0].lineno < first_add and not logic.atoms(fm.pc(fm.cfgn(san[0])))
     ck.ob("P", fm, san[0] if san else fm.f.node, ok, "unsanitised names are refused before the net is built" if ok else
           "network_to_petrinet does not refuse unsanitised variable names before building places", key="refuse unsanitised")
     fm = prog.fm(PN, "extract_variable_names")
@@ -301,6 +327,19 @@ def s_(ck: Check) -> None:
             if not syn:
                 ck.ob("S", fm, fm.f.stmt_of(c), True, "update function read and handed on without looking at its syntax",
                       key=f"update function read in {fm.f.name}")
+    # which variables are inputs is a property of the update functions, not of the declared regulations (a parsed network
+    # declares regulators that a function may not depend on; two presentations of one network then disagree)
+    sn = prog.fm("biobalm.interaction_graph_utils", "source_nodes")
+    graph_reads = [c for c in own_walk(sn.f.node) if isinstance(c, ast.Call) and isinstance(c.func, ast.Attribute)
+                   and c.func.attr in ("predecessors", "regulators", "find_regulation", "regulations", "successors", "targets")
+                   and not isinstance(sn.f.stmt_of(c), ast.Assert)]       # a sanity assertion decides nothing
+    for c in graph_reads:
+        ck.ob("S", sn, sn.f.stmt_of(c), False,
+              f"`{text(c)[:60]}` consults the declared regulatory graph to decide which variables are inputs: a regulator "
+              f"that the update function does not depend on (`b, (b & c) | (b & !c)`) changes the answer, so the result depends "
+              f"on how the network is written", key=f"declared graph {c.func.attr} in source_nodes")
+    if not graph_reads:
+        ck.ob("S", sn, sn.f.node, True, "source_nodes decides on the update functions only", key="source_nodes graph-free")
     if sites == 0:
         raise AnalysisError("anchor vanished: no function reads update functions")
 
@@ -327,7 +366,9 @@ def i_(ck: Check) -> None:
         v = text(lp.target)
         over_inputs = isinstance(it, ast.Call) and callee_name(it) == "implicit_parameters" and text(it.func.value) == X
         over_all = isinstance(it, ast.Call) and callee_name(it) in ("variables", "variable_names") and text(it.func.value) == X
-        if not (over_inputs or over_all) or text(c.args[0]) != v:
+        # the variable is named by its id or by its name
+        a0 = c.args[0] if text(c.args[0]) == v else fm.deref(c.args[0], cn)
+        if not (over_inputs or over_all) or text(a0) not in (v, f"{X}.get_variable_name({v})"):
             continue
         fn = fm.deref(c.args[1], cn)
         ident = text(fn) in (f"{X}.get_variable_name({v})", v) or (
